@@ -3,11 +3,11 @@ package main
 import (
 	"bytes"
 
-	"golang.org/x/tools/go/ssa"
-	"go/token"
-	"go/types"
 	"context"
 	"fmt"
+	"go/token"
+	"go/types"
+	"golang.org/x/tools/go/ssa"
 	"os"
 	"os/exec"
 	"path/filepath"
@@ -22,6 +22,7 @@ const preamble = `(declare-fun strkey ((Array Int Int) Int Int) Int)
 (declare-fun sub (Int Int) Int)
 (declare-fun subBase (Int) Int)
 (declare-fun subIdx (Int) Int)
+(declare-fun wfopen (Int) Bool)
 (assert (forall ((r Int) (k Int)) (! (and (= (subBase (sub r k)) r) (= (subIdx (sub r k)) k) (< (sub r k) 0)) :pattern ((sub r k)))))
 (define-fun streq ((a1 (Array Int Int)) (o1 Int) (n1 Int) (a2 (Array Int Int)) (o2 Int) (n2 Int)) Bool
   (and (= n1 n2) (forall ((j Int)) (! (=> (and (<= o1 j) (< j (+ o1 n1))) (= (select a1 j) (select a2 (+ o2 (- j o1))))) :pattern ((select a1 j))))
@@ -191,15 +192,15 @@ func (w *World) hasRec(used map[string]bool) bool {
 
 type Obligation struct {
 	SMTLean string // relevance-filtered variant (facts about unrelated recursive spec functions dropped); "" if identical
-	Name   string
-	Class  string
-	Src    string
-	Where  string
-	Canary bool
-	SMT    string // full query text
-	Values []string
-	HasRec bool
-	Func   string
+	Name    string
+	Class   string
+	Src     string
+	Where   string
+	Canary  bool
+	SMT     string // full query text
+	Values  []string
+	HasRec  bool
+	Func    string
 	// result
 	Status  string // unsat | sat | unknown | timeout | error
 	Backend string
